@@ -8,9 +8,15 @@ import props
 TEXT = {
  "C01": ("proof", "Lean theorems: the parser's IR refines canonical Brainfuck (both directions, prefix) for every program, input and width; arithmetic lemmas of the optimiser (trip count, closed forms); the optimiser as a whole is tied by exact-model correspondence and end-to-end comparison with the proved semantics", "5/C01"),
  "C04": ("proof", "Lean theorem inplace_* (Props/C04): the in-place interpreter model and the canonical semantics reach equal states for every balanced program, environment and width, termination reflected, prefix property, limited mode; model tied to src/exec/inplace.rs by differential correspondence on every run", "5/C04"),
+ "C05": ("proof", "Lean theorems (Props/C05): divergence certificates are sound; for the in-place interpreter and the IR interpreter at level 0 canonical divergence/termination and the output before divergence are preserved (corollaries of the C04/C01 refinements); other back ends and levels are held per program to the Lean model's halting/divergence certificate", "5/C05"),
+ "C06": ("proof", "Lean theorems (Props/C06): on the layout model of the bounds-checked executors every tape access stays inside the allocation for every checked program and every move, growth preserves contents (with C09); the layout model equals the real (size, offset); all back ends run under a guard-page allocator (left and right)", "5/C06"),
+ "C07": ("proof", "Lean theorems (Props/C07 + C04): limited execution of the in-place, IR and bytecode machines is a faithful prefix of the unlimited run, finishes with enough budget, terminates within an explicit bound and never reports finished on a divergent run; budget ladder on all real back ends against the canonical events", "5/C07"),
+ "C08": ("proof", "Lean theorems (Props/C08): I/O failure semantics of the shared state operations, stops are final and only at failing I/O on every machine, a refused byte's prefix is the fault-free run's prefix, in-place and IR (level 0) stop exactly like the canonical machine; exhaustive fault-index enumeration on all real back ends", "5/C08"),
  "C09": ("proof", "Lean theorems (Props/C09): Memory refines an unbounded zero-initialised array for every call history under an explicit 2^59 range guard; model tied to src/runtime.rs by call-history correspondence incl. (size, offset) after every call", "5/C09"),
+ "C10": ("proof", "Lean theorems (Props/C10): mode-independence of the bytecode semantics, unchecked = checked while no growth happens, static region condition, level-0 offsets bounded by the program length; execute_unsafe on pre-grown contexts under guard pages vs canonical events", "5/C10"),
  "C11": ("proof", "Lean theorems (Props/C11): the executable contract checker BcWf.check is sound w.r.t. the bytecode semantics (no bad branch/form, window, temp indices, definite initialisation on every path, dead-after-instruction for undeclared registers); the verified checker is run on the exact bytecode produced for every sampled program at both generator settings", "5/C11"),
  "C12": ("proof", "Lean theorems (Props/C12): parser accepts iff balanced, error kind/position = declarative spec, comment and UTF-8 insensitivity, totality; model tied to Program::parse by structural IR/error correspondence", "5/C12"),
+ "C13": ("proof", "Lean theorems (C11 no unimplemented form at run time, C12 parser totality) + exact ties of the bytecode and machine-code generators to pure Lean functions; panics, hash-seed independence, reuse and blow-up are observed on the real code (catch_unwind, double/two-process compilation, triple execution)", "5/C13"),
  "C14": ("proof", "Lean theorems (Props/C14) for every width w >= 1 and all operands: pow/inv/div contracts and conversion round trips; model tied to src/lib.rs exhaustively at 8 bit and on boundary/random operands at 16/32/64", "5/C14"),
  "C15": ("proof", "Lean theorems (Props/C15): value of add/mul/neg/half/normalize/substitution for all part lists; decompositions recompose under the normal form all constructors preserve; model tied to ir::Expr by operation-tree correspondence", "5/C15"),
  "C16": ("proof", "Lean theorems (Props/C16) about the front-end model with the flag table regenerated from src/bin/hpbf.rs on every run (translator) and proved equal to the model; black-box comparison of the real binary with the model and the canonical semantics", "5/C16"),
